@@ -193,6 +193,25 @@ pub fn run(ctx: &Ctx) -> Report {
                         ("sig-non-hex", "z".repeat(64)),
                         ("sig-128", format!("{}{}", sig, sig)),
                     ];
+                    // signatures made with the right key over near-misses of the string to sign (what a client with a
+                    // small signing bug presents): whatever the server says about them, it does not say the right one
+                    let mut shapes: Vec<(&str, String)> = shapes;
+                    if let Some(sts) = &o.string_to_sign {
+                        let key = refmodel::hmac::chain(secret.as_bytes(), &e2e::base_instant().date8(), b"us-east-1", b"service").ksigning;
+                        let text = String::from_utf8_lossy(sts).to_string();
+                        let variants: Vec<(&str, Vec<u8>)> = vec![
+                            ("sig-over-sts-plus-newline", [sts.as_slice(), b"\n"].concat()),
+                            ("sig-over-sts-plus-crlf", [sts.as_slice(), b"\r\n"].concat()),
+                            ("sig-over-sts-with-crlf-line-ends", text.replace('\n', "\r\n").into_bytes()),
+                            ("sig-over-sts-plus-blank", [sts.as_slice(), b" "].concat()),
+                            ("sig-over-sts-without-last-character", sts[..sts.len() - 1].to_vec()),
+                            ("sig-over-sts-plus-nul", [sts.as_slice(), b"\0"].concat()),
+                            ("sig-over-lowercased-sts", text.to_lowercase().into_bytes()),
+                        ];
+                        for (n, v) in variants {
+                            shapes.push((n, refmodel::hex_lower(&refmodel::hmac::hmac_sha256(&key, &v))));
+                        }
+                    }
                     for (sname, new) in shapes {
                         let mut c = valid.clone();
                         c.wire.uri = c.wire.uri.replace(&sig, &new);
@@ -489,7 +508,7 @@ pub fn run(ctx: &Ctx) -> Report {
     st.sample(0, 1, || json!({"observables": ["error Display/Debug", "key types Debug/Display", "provider request/response Debug", "CanonicalRequest/AuthParams/SigV4Authenticator Debug", "log records >= debug"], "needles_per_secret": n_needles / 3}));
     Report {
         stats: st,
-        rule: "3 secrets x 47 request classes (one per stage of the documented order on each carrier, valid, wrong signature, and presented signatures of 7 unusual shapes: truncated, empty, extended, doubled, upper-case, non-hex; and wrong signatures with request and server clock on different sides of a day, month, leap-day and year boundary) x 13 provider outcomes (key, wrong key, ExpiredToken, io error, private error type, a private error type whose message is harmless and whose derived Debug shows the key record it was handling; the key together with each of 7 identities — IAM user, assumed role, federated user, root, service, canonical user, user + role — from a store indexed by the access key alone, so also for requests without a session token); observables: the returned error's Display and Debug, the response Debug, Debug/Display (plain and alternate) of the five key types, GetSigningKeyRequest/Response, SigV4AuthenticatorResponse, CanonicalRequest, AuthParams, SigV4Authenticator, KeyTooLongError from five refused constructions (capacity one short, stray line ending, capacities 0/3/4/36, long input), and every log record at level >= Debug captured by the harness logger during validation and during key construction / refusal / derivation (Trace records counted, not searched); needles: secret, AWS4+secret, kDate, kRegion, kService, kSigning, each raw, hex, HEX, base64, base64url, as a decimal byte list and ascii-escaped, plus the correct signature of each refused request that did not present it (under the true key and under the key the provider handed out), searched in that request's observables and in those of every later validation of the run; finally 2^16 + 300 (thorough 2^20 + 300) requests with ever different wrong signatures are refused in one process and every error and record at Debug level or above of that run is searched for the correct signature. states = (class, provider, outcome)".into(),
+        rule: "3 secrets x 47 request classes (one per stage of the documented order on each carrier, valid, wrong signature, and presented signatures of 7 unusual shapes: truncated, empty, extended, doubled, upper-case, non-hex, and 7 signatures made with the right key over near-misses of the string to sign (a trailing newline / CR LF / blank / NUL, CR LF line ends, last character missing, lower-cased); and wrong signatures with request and server clock on different sides of a day, month, leap-day and year boundary) x 13 provider outcomes (key, wrong key, ExpiredToken, io error, private error type, a private error type whose message is harmless and whose derived Debug shows the key record it was handling; the key together with each of 7 identities — IAM user, assumed role, federated user, root, service, canonical user, user + role — from a store indexed by the access key alone, so also for requests without a session token); observables: the returned error's Display and Debug, the response Debug, Debug/Display (plain and alternate) of the five key types, GetSigningKeyRequest/Response, SigV4AuthenticatorResponse, CanonicalRequest, AuthParams, SigV4Authenticator, KeyTooLongError from five refused constructions (capacity one short, stray line ending, capacities 0/3/4/36, long input), and every log record at level >= Debug captured by the harness logger during validation and during key construction / refusal / derivation (Trace records counted, not searched); needles: secret, AWS4+secret, kDate, kRegion, kService, kSigning, each raw, hex, HEX, base64, base64url, as a decimal byte list and ascii-escaped, plus the correct signature of each refused request that did not present it (under the true key and under the key the provider handed out), searched in that request's observables and in those of every later validation of the run; finally 2^16 + 300 (thorough 2^20 + 300) requests with ever different wrong signatures are refused in one process and every error and record at Debug level or above of that run is searched for the correct signature. states = (class, provider, outcome)".into(),
         bounds: json!({"secrets": 3, "classes": classes.len(), "provider_outcomes": 5}),
         exhaustive: true,
         assumptions: vec!["needles shorter than 16 bytes are not searched (accidental matches)".into()],
